@@ -43,6 +43,11 @@ def cases(tier):
                 if tier == "quick" and k == K and (up, ur) in ((1, 0), (0, 1)):
                     continue
                 out.append({"name": "pipe_dm%s_k%d_up%d_ur%d" % (dm, k, up, ur), "what": "pipe", "dm": dm, "k": k, "up": up, "ur": ur})
+    # the same pipeline reached through Panoptica_Evaluator with class groups: a single-instance group evaluated BEFORE a multi-instance group
+    # (unmatched input, matcher threshold 0, decision threshold free): the multi-instance group's bookkeeping must still apply the decision threshold
+    for dm in ("IOU", "DSC"):
+        for k in ((1, 2) if tier == "quick" else (1, 2, 3)):
+            out.append({"name": "grouped_dm%s_k%d" % (dm, k), "what": "pipe", "dm": dm, "k": k, "up": 1, "ur": 1, "grouped": True})
     for n in range(0, K + 1):
         out.append({"name": "direct_len%d" % n, "what": "direct", "n": n})
     # value lists containing NaN entries (clDice 0/0, RVD of an empty reference): mean/std of such a list is NaN
@@ -140,6 +145,10 @@ def run_case(case):
     return _run_direct(case, T, MM)
 
 
+class _Done(Exception):
+    pass
+
+
 def _run_pipe(case, T, MM):
     IE = T.mod("panoptica.instance_evaluator")
     PE = T.mod("panoptica.panoptica_evaluator")
@@ -159,21 +168,41 @@ def _run_pipe(case, T, MM):
     pred = list(range(1, k + 1)) + ([k + 1] if up else []) + ([0] if ur else []) + [0]
     n_pred, n_ref = k + up, k + ur
     eval_metrics = [getattr(Metric, m) for m in METRICS]
+    grouped = bool(case.get("grouped"))
+    if grouped:
+        # label k+3: one voxel on both sides, its own single-instance group
+        ref, pred = ref + [k + 3, 0], pred + [k + 3, 0]
+
+        def free_match_metric(ref_mask, pred_mask, *a, **kw):
+            rc = [i for i, c in enumerate(ref_mask.cells) if c is True]
+            assert len(rc) == 1 and 0 <= rc[0] < k, rc
+            return SNum(vals[dm][rc[0]], "float64")
+        getattr(Metric, dm).value._metric_function = free_match_metric
 
     def kernel(reference_arr, prediction_arr, ref_idx, eval_metrics):
         i = int(ref_idx) - 1
+        if grouped and not 0 <= i < k:
+            return {m: SNum(z3.RealVal(0 if m.name in ("ASSD", "RVD") else 1), "float64") for m in eval_metrics}     # the single-instance group's one instance
         assert 0 <= i < k
         return {m: SNum(vals[m.name][i], "float64") for m in eval_metrics}
     IE._evaluate_instance = kernel
 
     def decode(m):
-        return {"what": "pipe", "dm": dm, "k": k, "up": up, "ur": ur, "thr": jsonable(thr, m), "unused_matcher": bool(jsonable(z3.Bool("unused_matcher_configured"), m)),
+        return {"what": "pipe", "dm": dm, "k": k, "up": up, "ur": ur, "thr": jsonable(thr, m), "unused_matcher": bool(jsonable(z3.Bool("unused_matcher_configured"), m)), "grouped": grouped,
                 "vals": {mm: [jsonable(v, m) for v in vals[mm]] for mm in METRICS}}
     h = H(PROP, case["name"], decode, replay_kind="pipe", max_witnesses=12)
 
     def body():
         pair = PP.MatchedInstancePair(SArr(list(pred), "uint8").protect("caller prediction"), SArr(list(ref), "uint8").protect("caller reference"))
         try:
+            if grouped:
+                LG = T.mod("panoptica.utils.label_group")
+                SC = T.mod("panoptica.utils.segmentation_class")
+                groups = SC.SegmentationClassGroups({"S": LG.LabelGroup([k + 3], True), "M": LG.LabelGroup(list(range(1, k + 3)), False)})
+                ev = PE.Panoptica_Evaluator(expected_input=PP.InputType.UNMATCHED_INSTANCE, instance_matcher=T.panoptica.NaiveThresholdMatching(getattr(Metric, dm), 0.0),
+                                            segmentation_class_groups=groups, instance_metrics=eval_metrics, global_metrics=[], decision_metric=getattr(Metric, dm), decision_threshold=SNum(thr))
+                res = ev.evaluate(SArr(list(pred), "uint8").protect("caller prediction"), SArr(list(ref), "uint8").protect("caller reference"), verbose=False)["m"][0]
+                raise _Done(res)
             # option combination: a matcher that the matched input never uses may be configured alongside (metric = decision metric, threshold 1/2)
             unused = None
             if bool(SBool(z3.Bool("unused_matcher_configured"))):
@@ -182,7 +211,12 @@ def _run_pipe(case, T, MM):
                                           decision_threshold=None if dm is None else SNum(thr), verbose=False)
         except EngineSignal:
             raise
+        except _Done as d:
+            res = d.args[0]
         except Exception as e:
+            import os, traceback
+            if os.environ.get("VERIF_TRACE"):
+                traceback.print_exc()
             h.fail("completes", detail="%s: %s" % (type(e).__name__, str(e)[:120]))
             return
         inc = dm in ("IOU", "DSC")
@@ -308,6 +342,8 @@ def real_pipe(case, mode, expect):
         return {"error": "abstract case not realisable"}
     mets = ["DSC", "IOU", "RVD"] + (["ASSD"] if case["dm"] == "ASSD" else [])
     cfg = {"input_type": "MATCHED_INSTANCE", "metrics": mets, "decision_metric": case["dm"], "decision_threshold": arrs["thr"], "global_metrics": []}
+    if case.get("grouped"):
+        return _real_grouped(case, arrs, cfg, mets, mode, expect)
     ev = RC.build_evaluator(cfg)
     if case.get("unused_matcher"):
         from panoptica import NaiveThresholdMatching, Metric
@@ -327,6 +363,34 @@ def real_pipe(case, mode, expect):
     ok = mode != "witness" or expect is None or all(o[k] == expect[k] for k in ("tp", "fp", "fn"))
     return {"match": ok, "why": None if ok else "tp/fp/fn differ from the twin: %s" % expect, "violates": bad is not None,
             "reason": None if bad is None else "%s: %s" % bad, "observed": obs}
+
+
+def _real_grouped(case, arrs, cfg, mets, mode, expect):
+    import numpy as np
+    from panoptica.utils.label_group import LabelGroup
+    from panoptica.utils.segmentation_class import SegmentationClassGroups
+    k = case["k"]
+    cfg = dict(cfg, input_type="UNMATCHED_INSTANCE", matching_metric=case["dm"], matching_threshold=0.0)
+    pred, ref = arrs["pred"] + [k + 3, 0], arrs["ref"] + [k + 3, 0]
+    arrs = dict(arrs, pred=pred, ref=ref)
+    ev = RC.build_evaluator(cfg)
+    ev._Panoptica_Evaluator__segmentation_class_groups = SegmentationClassGroups({"S": LabelGroup([k + 3], True), "M": LabelGroup(list(range(1, k + 3)), False)})
+    try:
+        res = ev.evaluate(np.array(pred, dtype=np.uint8), np.array(ref, dtype=np.uint8), verbose=False)["m"][0]
+        o = RC.result_to_dict(res, mets)
+    except Exception as e:
+        return {"violates": True, "match": False, "reason": "completes: %s: %s" % (type(e).__name__, str(e)[:150]), "observed": {"arrays": arrs}}
+    bad = RC.bookkeeping_oracle(o, mets)
+    if bad is None:
+        mp = [v if v <= k + 2 else 0 for v in pred]
+        mr = [v if v <= k + 2 else 0 for v in ref]
+        want = RC.reference_pipeline(mp, mr, cfg)
+        bad = RC.definition_oracle(o, want, [m for m in mets if m != "ASSD"])
+        if bad is not None and bad[0] == "counts":
+            bad = ("failed_decision_is_not_tp", "multi-instance group evaluated after a single-instance group: " + bad[1])
+    ok = mode != "witness" or expect is None or all(o[kk] == expect[kk] for kk in ("tp", "fp", "fn"))
+    return {"match": ok, "why": None if ok else "tp/fp/fn differ from the twin: %s" % expect, "violates": bad is not None,
+            "reason": None if bad is None else "%s: %s" % bad, "observed": {"arrays": arrs, "result": o}}
 
 
 def real_direct(case, mode, expect):
